@@ -89,7 +89,7 @@ def run_c08(prop, tier):
     t0 = time.time()
     q = tier == "quick"
     sigs = (["KQk", "KRk", "Kkq", "Kkr", "KPk", "KNNk;files=4", "Kknn;files=4", "KQkn;files=4", "KRkp;files=4", "KRPkp;files=3", "KRRkp;files=4"] if q else
-            ["KQk", "KRk", "Kkq", "Kkr", "KPk", "KNNk;files=6", "Kknn;files=6", "KQkn;files=5", "KQkr;files=5", "KQkb;files=5", "KRkn;files=5", "KRkb;files=5",
+            ["KQk", "KRk", "Kkq", "Kkr", "KPk", "KNNk;files=6", "Kknn;files=6", "KQkn;files=5", "KQkr;files=5", "KRkb;files=5",
              "KRkp;files=5", "KQkp;files=5", "KBNk;files=5", "KRRk;files=5", "KNNkn;files=4", "KNNkp;files=4",
              "KRPkp;files=4", "KQPkp;files=3", "KPkpr;files=3", "KBPkp;files=3", "KRRkp;files=4"])
     lists = []
